@@ -158,11 +158,14 @@ pub fn run(ctx: &Ctx) {
     ctx.assume("date-times and raw timestamps are not in the statement's list; a zero duration prints the empty string and is skipped; non-finite values are skipped");
     ctx.run_table(&RoundTrip, "regressions", regressions(), false);
     ctx.run_generated(&RoundTrip, ctx.tier.pick(100_000, 1_000_000), case_strategy);
+    // unit quantities of user-defined families (same print/parse convention as the built-in units)
+    ctx.run_generated(&crate::custom_units::CustomUnits, ctx.tier.pick(300, 5_000), || crate::custom_units::case_strategy("C15"));
 }
 
 pub fn replay(w: &mut Worker, sub: &str, case: &serde_json::Value) -> Option<Verdict> {
     match sub {
         "print-read-print" => crate::engine::replay_case(&RoundTrip, w, case),
+        "custom-units" => crate::custom_units::replay(w, case),
         _ => None,
     }
 }
